@@ -188,7 +188,7 @@ def run(tier, seed):
     ck.outside = ['lengths outside the table', 'SHA-256 internals',
                   'inputs whose two SSWU images share an x-coordinate (affine chord formula degenerate): reachable only through a SHA-256 output nobody can exhibit; the polynomial identity holds there too but the chord rule is then not the group law']
     from props import C12
-    C12.run(tier, seed, ck)   # contracts of the field.Element methods used as summaries are re-proved on the current tree
+    C12.run(tier, seed, ck, which=['HashToFieldElement', 'Square', 'Multiply', 'Add', 'Subtract', 'One', 'IsZero', 'Negate', 'CMove', 'SqrtRatio', 'Sgn0', 'IsEqual', 'Invert', 'Set'])   # contracts of the field.Element methods used as summaries are re-proved on the current tree
     failures = []
     with core.ThreadPoolExecutor(max_workers=4) as ex:
         list(ex.map(lambda a: check_one(ck, R_['h%d_%d_%d' % (a[0], a[1][0], a[1][1])], a[0], a[1][0], a[1][1], failures), [(fn, c) for fn in (0, 1) for c in combos]))
